@@ -1,8 +1,703 @@
-/- EmdModel.Config — (stub; filled in by the property that owns it) -/
+/-
+  EmdModel.Config — model of `emd.sift.SiftConfig`, `get_config`, `_get_function_opts`,
+  `_array_or_tuple_to_list` (property C18).
+
+  * `Tree`            : a Python option value — scalar | list/tuple/ndarray | dict (ordered, str keys)
+  * `keyTransform`    : `SiftConfig.__keytransform__` (split on '/', at most three levels)
+  * `cfgGet/Set/Del`  : `SiftConfig.__getitem__/__setitem__/__delitem__` written out level by level
+                        exactly like the code; `getPath/setPath/delPath` are plain nested indexing
+  * `toSafe`          : `_array_or_tuple_to_list` (ndarray → tolist(), tuple → list, through dicts only)
+  * `Codec`           : the YAML library as an oracle (`dump/load`, `dump_all/load_all`)
+  * `toYamlFile/fromYamlFile`, `toYamlText/fromYamlStream`, `getFunc`, `getConfig`
+
+  Keys and strings are `List Char` so that `str.split('/')` is a structural function we can reason about.
+  Python aliasing (two keys holding the *same* dict object) has no counterpart in this functional
+  model; the harness never stores one object under two keys.
+-/
 import EmdModel.Protocol
 
 namespace Config
 
-def handle (_o : Protocol.Op) : Option String := none
+abbrev Key := List Char
+
+inductive Scalar
+  | none
+  | bool (b : Bool)
+  | int (i : Int)
+  | num (r : Rat)          -- a Python float (exact value)
+  | str (s : Key)
+  deriving DecidableEq
+
+inductive Kind
+  | list | tuple | array
+  deriving DecidableEq
+
+mutual
+  inductive Tree
+    | scalar (s : Scalar)
+    | seq (k : Kind) (xs : TreeList)
+    | dict (kvs : Assoc)
+  inductive TreeList
+    | nil
+    | cons (t : Tree) (ts : TreeList)
+  inductive Assoc
+    | nil
+    | cons (k : Key) (v : Tree) (rest : Assoc)
+end
+
+/-- the exception classes the modelled code can raise -/
+inductive Err
+  | keyError | typeError | indexError | valueError | attributeError
+  deriving DecidableEq
+
+def Err.name : Err → String
+  | .keyError => "KeyError"
+  | .typeError => "TypeError"
+  | .indexError => "IndexError"
+  | .valueError => "ValueError"
+  | .attributeError => "AttributeError"
+
+/-! ### ordered dictionaries -/
+
+namespace Assoc
+
+/-- `d.get(k)` -/
+def lookup (k : Key) : Assoc → Option Tree
+  | .nil => none
+  | .cons k' v r => if k' = k then some v else lookup k r
+
+/-- `d[k] = v` : replace in place, or append at the end -/
+def insert (k : Key) (v : Tree) : Assoc → Assoc
+  | .nil => .cons k v .nil
+  | .cons k' v' r => if k' = k then .cons k' v r else .cons k' v' (insert k v r)
+
+/-- `del d[k]` (for a present key) -/
+def erase (k : Key) : Assoc → Assoc
+  | .nil => .nil
+  | .cons k' v' r => if k' = k then erase k r else .cons k' v' (erase k r)
+
+def keys : Assoc → List Key
+  | .nil => []
+  | .cons k _ r => k :: keys r
+
+def contains (k : Key) (a : Assoc) : Bool := (a.lookup k).isSome
+
+def append : Assoc → Assoc → Assoc
+  | .nil, b => b
+  | .cons k v r, b => .cons k v (append r b)
+
+end Assoc
+
+namespace TreeList
+def toList : TreeList → List Tree
+  | .nil => []
+  | .cons t ts => t :: toList ts
+def ofList : List Tree → TreeList
+  | [] => .nil
+  | t :: ts => .cons t (ofList ts)
+def length : TreeList → Nat
+  | .nil => 0
+  | .cons _ ts => length ts + 1
+end TreeList
+
+def Tree.str (s : String) : Tree := .scalar (.str s.toList)
+def Tree.none : Tree := .scalar .none
+
+/-! ### Python item access with a string key -/
+
+/-- `t[k]` -/
+def getItem (t : Tree) (k : Key) : Except Err Tree :=
+  match t with
+  | .dict a => match a.lookup k with
+    | some v => .ok v
+    | none => .error .keyError
+  | .seq .array _ => .error .indexError
+  | _ => .error .typeError
+
+/-- `t[k] = v` (the updated object) -/
+def setItem (t : Tree) (k : Key) (v : Tree) : Except Err Tree :=
+  match t with
+  | .dict a => .ok (.dict (a.insert k v))
+  | .seq .array _ => .error .indexError
+  | _ => .error .typeError
+
+/-- `del t[k]` (the updated object) -/
+def delItem (t : Tree) (k : Key) : Except Err Tree :=
+  match t with
+  | .dict a => if a.contains k then .ok (.dict (a.erase k)) else .error .keyError
+  | .seq .array _ => .error .valueError
+  | _ => .error .typeError
+
+/-! ### plain nested indexing (the reference semantics of a key path) -/
+
+/-- `t[k0][k1]…[kn]` -/
+def getPath : Tree → List Key → Except Err Tree
+  | t, [] => .ok t
+  | t, k :: ks => do
+      let c ← getItem t k
+      getPath c ks
+
+/-- `t[k0][k1]…[kn] = v` -/
+def setPath : Tree → List Key → Tree → Except Err Tree
+  | _, [], v => .ok v
+  | t, [k], v => setItem t k v
+  | t, k :: k' :: ks, v => do
+      let c ← getItem t k
+      let c' ← setPath c (k' :: ks) v
+      setItem t k c'
+
+/-- `del t[k0][k1]…[kn]` -/
+def delPath : Tree → List Key → Except Err Tree
+  | t, [] => .ok t
+  | t, [k] => delItem t k
+  | t, k :: k' :: ks => do
+      let c ← getItem t k
+      let c' ← delPath c (k' :: ks)
+      setItem t k c'
+
+/-! ### key paths -/
+
+/-- Python `key.split('/')` -/
+def splitSlash : Key → List Key
+  | [] => [[]]
+  | c :: cs =>
+    if c = '/' then [] :: splitSlash cs
+    else match splitSlash cs with
+      | [] => [[c]]
+      | s :: r => (c :: s) :: r
+
+/-- `'/'.join(segs)` -/
+def joinSlash : List Key → Key
+  | [] => []
+  | [s] => s
+  | s :: t :: r => s ++ '/' :: joinSlash (t :: r)
+
+/-- `SiftConfig.__keytransform__`: the list of levels (a one-element list stands for the plain key) -/
+def keyTransform (key : Key) : Except Err (List Key) :=
+  let parts := splitSlash key
+  if parts.length > 3 then .error .valueError else .ok parts
+
+/-- `SiftConfig.__getitem__` -/
+def cfgGet (store : Tree) (key : Key) : Except Err Tree := do
+  let p ← keyTransform key
+  match p with
+  | [a] => getItem store a
+  | [a, b] => do
+      let x ← getItem store a
+      getItem x b
+  | [a, b, c] => do
+      let x ← getItem store a
+      let y ← getItem x b
+      getItem y c
+  | _ => .ok Tree.none
+
+/-- `SiftConfig.__setitem__` (the store afterwards) -/
+def cfgSet (store : Tree) (key : Key) (v : Tree) : Except Err Tree := do
+  let p ← keyTransform key
+  match p with
+  | [a] => setItem store a v
+  | [a, b] => do
+      let x ← getItem store a
+      let x' ← setItem x b v
+      setItem store a x'
+  | [a, b, c] => do
+      let x ← getItem store a
+      let y ← getItem x b
+      let y' ← setItem y c v
+      let x' ← setItem x b y'
+      setItem store a x'
+  | _ => .ok store
+
+/-- `SiftConfig.__delitem__` (the store afterwards) -/
+def cfgDel (store : Tree) (key : Key) : Except Err Tree := do
+  let p ← keyTransform key
+  match p with
+  | [a] => delItem store a
+  | [a, b] => do
+      let x ← getItem store a
+      let x' ← delItem x b
+      setItem store a x'
+  | [a, b, c] => do
+      let x ← getItem store a
+      let y ← getItem x b
+      let y' ← delItem y c
+      let x' ← setItem x b y'
+      setItem store a x'
+  | _ => .ok store
+
+/-! ### yaml-safe conversion -/
+
+mutual
+  /-- `ndarray.tolist()` -/
+  def arrToList : Tree → Tree
+    | .seq .array xs => .seq .list (arrToListL xs)
+    | .seq .list xs => .seq .list xs
+    | .seq .tuple xs => .seq .tuple xs
+    | .scalar s => .scalar s
+    | .dict a => .dict a
+  def arrToListL : TreeList → TreeList
+    | .nil => .nil
+    | .cons t ts => .cons (arrToList t) (arrToListL ts)
+end
+
+mutual
+  /-- what `_array_or_tuple_to_list` stores for one dictionary value -/
+  def toSafe : Tree → Tree
+    | .seq .array xs => .seq .list (arrToListL xs)
+    | .seq .tuple xs => .seq .list xs
+    | .seq .list xs => .seq .list xs
+    | .scalar s => .scalar s
+    | .dict a => .dict (toSafeA a)
+  /-- `_array_or_tuple_to_list(conf)` -/
+  def toSafeA : Assoc → Assoc
+    | .nil => .nil
+    | .cons k v r => .cons k (toSafe v) (toSafeA r)
+end
+
+mutual
+  /-- no ndarray anywhere: the domain on which the YAML codec is assumed to round-trip -/
+  def arrayFree : Tree → Bool
+    | .scalar _ => true
+    | .seq .array _ => false
+    | .seq .list xs => arrayFreeL xs
+    | .seq .tuple xs => arrayFreeL xs
+    | .dict a => arrayFreeA a
+  def arrayFreeL : TreeList → Bool
+    | .nil => true
+    | .cons t ts => arrayFree t && arrayFreeL ts
+  def arrayFreeA : Assoc → Bool
+    | .nil => true
+    | .cons _ v r => arrayFree v && arrayFreeA r
+end
+
+mutual
+  /-- a (possibly multi-dimensional) ndarray of scalars -/
+  def pureArray : Tree → Bool
+    | .scalar _ => true
+    | .seq .array xs => pureArrayL xs
+    | .seq _ _ => false
+    | .dict _ => false
+  def pureArrayL : TreeList → Bool
+    | .nil => true
+    | .cons t ts => pureArray t && pureArrayL ts
+end
+
+mutual
+  /-- option values as the property describes them: scalars, None, lists, tuples (array-free
+      contents), arrays of scalars, and dictionaries of such values -/
+  def plain : Tree → Bool
+    | .scalar _ => true
+    | .seq .array xs => pureArrayL xs
+    | .seq .list xs => arrayFreeL xs
+    | .seq .tuple xs => arrayFreeL xs
+    | .dict a => plainA a
+  def plainA : Assoc → Bool
+    | .nil => true
+    | .cons _ v r => plain v && plainA r
+end
+
+mutual
+  /-- forget whether a sequence is a list, a tuple or an array ("tuples may become lists") -/
+  def eraseKinds : Tree → Tree
+    | .scalar s => .scalar s
+    | .seq _ xs => .seq .list (eraseKindsL xs)
+    | .dict a => .dict (eraseKindsA a)
+  def eraseKindsL : TreeList → TreeList
+    | .nil => .nil
+    | .cons t ts => .cons (eraseKinds t) (eraseKindsL ts)
+  def eraseKindsA : Assoc → Assoc
+    | .nil => .nil
+    | .cons k v r => .cons k (eraseKinds v) (eraseKindsA r)
+end
+
+/-! ### configurations and the two YAML routes -/
+
+structure Cfg where
+  siftType : Tree
+  store : Tree
+
+def siftTypeKey : Key := "sift_type".toList
+
+/-- `SiftConfig._get_yamlsafe_dict` : `[{'sift_type': …}, converted deep copy of the store]`.
+    `self.store` must offer `.copy()` and `.items()` (a dict), otherwise `AttributeError`. -/
+def yamlSafeDocs (c : Cfg) : Except Err TreeList :=
+  match c.store with
+  | .dict a => .ok (.cons (.dict (.cons siftTypeKey c.siftType .nil)) (.cons (.dict (toSafeA a)) .nil))
+  | _ => .error .attributeError
+
+/-- The live configuration after `to_yaml_text()` / `to_yaml_file()`: untouched (the conversion
+    works on a deep copy). -/
+def storeAfterDump (c : Cfg) : Tree := c.store
+
+def lowerLevel : List Key := ["imf_opts".toList, "envelope_opts".toList, "extrema_opts".toList]
+
+/-- `SiftConfig.__str__` runs without raising: the store is a dict and each of the three stage
+    entries (when present) is a dict.  `to_yaml_file` / `from_yaml_file` evaluate `str(config)`
+    for their log line, whatever the log level. -/
+def strOkA : Assoc → Bool
+  | .nil => true
+  | .cons key v r =>
+    (if key ∈ lowerLevel then (match v with | .dict _ => true | _ => false) else true) && strOkA r
+
+def strOk : Tree → Bool
+  | .dict a => strOkA a
+  | _ => false
+
+/-- PyYAML as an oracle. -/
+structure Codec (Text : Type) where
+  dump : Tree → Text                      -- yaml.dump(obj, sort_keys=False)
+  load : Text → Except Err Tree           -- yaml.load(text, Loader=FullLoader)
+  dumpAll : TreeList → Text               -- yaml.dump_all(docs, sort_keys=False)
+  loadAll : Text → Except Err TreeList    -- list(yaml.load_all(text, Loader=FullLoader))
+
+/-- the assumption made about the codec (validated against the real library on every run) -/
+structure Codec.Lawful {Text : Type} (C : Codec Text) : Prop where
+  load_dump : ∀ t, arrayFree t = true → C.load (C.dump t) = .ok t
+  loadAll_dumpAll : ∀ ts, arrayFreeL ts = true → C.loadAll (C.dumpAll ts) = .ok ts
+
+variable {Text : Type}
+
+/-- `to_yaml_file` : the text written to the file (the method then formats a log line with
+    `str(self)`, which fails unless the stage entries are dictionaries) -/
+def toYamlFile (C : Codec Text) (c : Cfg) : Except Err Text := do
+  let docs ← yamlSafeDocs c
+  if strOk c.store then pure (C.dumpAll docs) else .error .attributeError
+
+/-- `to_yaml_text` : ONE document holding the two-element list -/
+def toYamlText (C : Codec Text) (c : Cfg) : Except Err Text := do
+  let docs ← yamlSafeDocs c
+  pure (C.dump (.seq .list docs))
+
+def defaultName : Tree := Tree.str "sift"
+def unknownName : Tree := Tree.str "Unknown"
+
+/-- `SiftConfig.from_yaml_file` -/
+def fromYamlFile (C : Codec Text) (text : Text) : Except Err Cfg := do
+  let docs ← C.loadAll text
+  let ret : Cfg ← match docs with
+    | .cons d .nil => pure { siftType := unknownName, store := d }
+    | .nil => .error .indexError
+    | .cons d0 rest => do
+        let st ← getItem d0 siftTypeKey
+        match rest with
+        | .nil => .error .indexError
+        | .cons d1 _ => pure { siftType := st, store := d1 }
+  if strOk ret.store then pure ret else .error .attributeError
+
+/-- `SiftConfig.from_yaml_stream` : accepts the two-element list written by `to_yaml_text`
+    (anything else becomes the store of a default-typed configuration, as before). -/
+def fromYamlStream (C : Codec Text) (text : Text) : Except Err Cfg := do
+  let obj ← C.load text
+  match obj with
+  | .seq .list (.cons d0 (.cons d1 .nil)) => do
+      let st ← getItem d0 siftTypeKey
+      pure { siftType := st, store := d1 }
+  | _ => pure { siftType := defaultName, store := obj }
+
+/-- `from_yaml_stream` as pinned (before the D14 repair): the loaded object becomes the store. -/
+def fromYamlStreamLegacy (C : Codec Text) (text : Text) : Except Err Cfg := do
+  let obj ← C.load text
+  pure { siftType := defaultName, store := obj }
+
+/-- `_get_yamlsafe_dict` as pinned: shallow `store.copy()`, so nested dictionaries are converted in
+    the LIVE configuration while top-level values are not. -/
+def storeAfterDumpLegacy (c : Cfg) : Tree :=
+  let rec go : Assoc → Assoc
+    | .nil => .nil
+    | .cons k (.dict a) r => .cons k (.dict (toSafeA a)) (go r)
+    | .cons k v r => .cons k v (go r)
+  match c.store with
+  | .dict a => .dict (go a)
+  | t => t
+
+/-- `SiftConfig.get_func` : the function named by `sift_type` and the keyword arguments bound
+    into the partial (`known` = which names exist in `emd.sift`). -/
+def getFunc (known : Key → Bool) (c : Cfg) : Except Err (Key × Assoc) :=
+  match c.siftType with
+  | .scalar (.str s) =>
+    if known s then
+      match c.store with
+      | .dict a => .ok (s, a)
+      | _ => .error .typeError
+    else .error .attributeError
+  | _ => .error .typeError
+
+/-! ### `get_config` -/
+
+/-- `_get_function_opts(func, ignore)` on a signature given as (parameter, default) in order -/
+def functionOpts (ignore : List Key) : Assoc → Assoc
+  | .nil => .nil
+  | .cons p d r =>
+    if p ∈ ignore then functionOpts ignore r
+    else .cons p d (functionOpts (p :: ignore) r)
+
+/-- the live signatures `get_config` inspects -/
+structure Sigs where
+  gpe : Assoc                       -- get_padded_extrema
+  ie : Assoc                        -- interp_envelope
+  gni : Assoc                       -- get_next_imf
+  variant : Key → Option Assoc      -- getattr(emd.sift, name), if it exists
+
+def k (s : String) : Key := s.toList
+
+def siftTypes : List Key :=
+  [k "sift", k "ensemble_sift", k "complete_ensemble_sift", k "mask_sift",
+   k "mask_sift_adaptive", k "mask_sift_specified"]
+
+def magPadOpts : Tree :=
+  .dict (.cons (k "mode") (Tree.str "median") (.cons (k "stat_length") (.scalar (.int 1)) .nil))
+def locPadOpts : Tree :=
+  .dict (.cons (k "mode") (Tree.str "reflect") (.cons (k "reflect_type") (Tree.str "odd") .nil))
+
+def gpeIgnore : List Key := [k "X", k "mag_pad_opts", k "loc_pad_opts", k "mode"]
+def ieIgnore : List Key := [k "X", k "extrema_opts", k "mode", k "ret_extrema"]
+def gniIgnore : List Key := [k "X", k "envelope_opts", k "extrema_opts"]
+/-- as written in the code: a comma is missing, so two names fuse into one (harmless: both
+    keys are overwritten afterwards) -/
+def variantIgnore : List Key := [k "X", k "imf_optsenvelope_opts", k "extrema_opts"]
+
+/-- `for key in opts: out[key] = opts[key]` through `SiftConfig.__setitem__` -/
+def assignAll : Tree → Assoc → Except Err Tree
+  | store, .nil => .ok store
+  | store, .cons p d r => do
+      let s ← cfgSet store p d
+      assignAll s r
+
+/-- `get_config(siftname)` -/
+def getConfig (S : Sigs) (name : Key) : Except Err Cfg := do
+  let extremaOpts := functionOpts gpeIgnore S.gpe
+  let envelopeOpts := functionOpts ieIgnore S.ie
+  let imfOpts := functionOpts gniIgnore S.gni
+  if name ∈ siftTypes then
+    match S.variant name with
+    | none => .error .attributeError
+    | some sig => do
+        let siftOpts := functionOpts variantIgnore sig
+        let s ← assignAll (.dict .nil) siftOpts
+        let s ← cfgSet s (k "imf_opts") (.dict imfOpts)
+        let s ← cfgSet s (k "envelope_opts") (.dict envelopeOpts)
+        let s ← cfgSet s (k "extrema_opts") (.dict extremaOpts)
+        let s ← cfgSet s (k "extrema_opts/mag_pad_opts") magPadOpts
+        let s ← cfgSet s (k "extrema_opts/loc_pad_opts") locPadOpts
+        pure { siftType := .scalar (.str name), store := s }
+  else .error .attributeError
+
+/-! ### wire format
+
+  A tree is a comma-separated prefix code:
+    N | B0 | B1 | I<int> | R<num>[:<den>] | S<cp>.<cp>… | L<n> t… | U<n> t… | A<n> t… | D<n> (S… t)…
+  (`U` tuple, `A` ndarray; strings are lists of code points so that no protocol
+  delimiter can appear inside a token). -/
+
+def fmtKeyBody (s : Key) : String := ".".intercalate (s.map fun c => toString c.toNat)
+
+def fmtScalar : Scalar → String
+  | .none => "N"
+  | .bool b => if b then "B1" else "B0"
+  | .int i => s!"I{i}"
+  | .num r => if r.den = 1 then s!"R{r.num}" else s!"R{r.num}:{r.den}"
+  | .str s => "S" ++ fmtKeyBody s
+
+def kindLetter : Kind → String
+  | .list => "L" | .tuple => "U" | .array => "A"
+
+mutual
+  def fmtToks : Tree → List String
+    | .scalar s => [fmtScalar s]
+    | .seq kd xs => (kindLetter kd ++ toString xs.length) :: fmtToksL xs
+    | .dict a => ("D" ++ toString a.keys.length) :: fmtToksA a
+  def fmtToksL : TreeList → List String
+    | .nil => []
+    | .cons t ts => fmtToks t ++ fmtToksL ts
+  def fmtToksA : Assoc → List String
+    | .nil => []
+    | .cons key v r => ("S" ++ fmtKeyBody key) :: (fmtToks v ++ fmtToksA r)
+end
+
+def fmtTree (t : Tree) : String := ",".intercalate (fmtToks t)
+
+def parseKeyBody? (cs : List Char) : Option Key :=
+  if cs = [] then some []
+  else ((String.ofList cs).splitOn ".").mapM fun w => w.toNat?.map Char.ofNat
+
+def parseRatBody? (cs : List Char) : Option Rat :=
+  match (String.ofList cs).splitOn ":" with
+  | [n] => n.toInt?.map fun i => (i : Rat)
+  | [n, d] => do
+      let i ← n.toInt?
+      let m ← d.toNat?
+      if m = 0 then none else some (mkRat i m)
+  | _ => none
+
+def parseNatBody? (cs : List Char) : Option Nat := (String.ofList cs).toNat?
+
+mutual
+  def parseTree : Nat → List String → Option (Tree × List String)
+    | 0, _ => none
+    | _, [] => none
+    | fuel + 1, tok :: rest =>
+      match tok.toList with
+      | ['N'] => some (.scalar .none, rest)
+      | ['B', '0'] => some (.scalar (.bool false), rest)
+      | ['B', '1'] => some (.scalar (.bool true), rest)
+      | 'I' :: ds => (String.ofList ds).toInt?.map fun i => (.scalar (.int i), rest)
+      | 'R' :: ds => (parseRatBody? ds).map fun r => (.scalar (.num r), rest)
+      | 'S' :: ds => (parseKeyBody? ds).map fun s => (.scalar (.str s), rest)
+      | 'L' :: ds => do
+          let n ← parseNatBody? ds
+          let (xs, r) ← parseList fuel n rest
+          some (.seq .list xs, r)
+      | 'U' :: ds => do
+          let n ← parseNatBody? ds
+          let (xs, r) ← parseList fuel n rest
+          some (.seq .tuple xs, r)
+      | 'A' :: ds => do
+          let n ← parseNatBody? ds
+          let (xs, r) ← parseList fuel n rest
+          some (.seq .array xs, r)
+      | 'D' :: ds => do
+          let n ← parseNatBody? ds
+          let (a, r) ← parseAssoc fuel n rest
+          some (.dict a, r)
+      | _ => none
+  def parseList : Nat → Nat → List String → Option (TreeList × List String)
+    | 0, _, _ => none
+    | _ + 1, 0, toks => some (.nil, toks)
+    | fuel + 1, n + 1, toks => do
+        let (t, r) ← parseTree fuel toks
+        let (ts, r') ← parseList fuel n r
+        some (.cons t ts, r')
+  def parseAssoc : Nat → Nat → List String → Option (Assoc × List String)
+    | 0, _, _ => none
+    | _ + 1, 0, toks => some (.nil, toks)
+    | _ + 1, _ + 1, [] => none
+    | fuel + 1, n + 1, tok :: toks =>
+      match tok.toList with
+      | 'S' :: ds => do
+          let key ← parseKeyBody? ds
+          let (t, r) ← parseTree fuel toks
+          let (a, r') ← parseAssoc fuel n r
+          some (.cons key t a, r')
+      | _ => none
+end
+
+def parseTree? (s : String) : Option Tree :=
+  let toks := s.splitOn ","
+  match parseTree (2 * toks.length + 4) toks with
+  | some (t, []) => some t
+  | _ => none
+
+def parseKey? (s : String) : Option Key :=
+  match s.toList with
+  | 'S' :: ds => parseKeyBody? ds
+  | _ => none
+
+/-- the ideal codec used by the executable driver: documents are the trees themselves
+    (it satisfies `Codec.Lawful`; the real PyYAML is validated against the same law by the harness) -/
+inductive IdealText
+  | one (t : Tree)
+  | many (ts : TreeList)
+
+def idealCodec : Codec IdealText where
+  dump t := .one t
+  load
+    | .one t => .ok t
+    | .many (.cons t .nil) => .ok t
+    | .many _ => .error .valueError     -- yaml.composer.ComposerError (not produced by the modelled routes)
+  dumpAll ts := .many ts
+  loadAll
+    | .many ts => .ok ts
+    | .one t => .ok (.cons t .nil)
+
+open Protocol in
+def fmtExcept (r : Except Err Tree) : String :=
+  match r with
+  | .ok t => "v:" ++ fmtTree t
+  | .error e => "e:" ++ e.name
+
+def fmtCfg (r : Except Err Cfg) : String :=
+  match r with
+  | .ok c => s!"ok stype={fmtTree c.siftType} store={fmtTree c.store}"
+  | .error e => s!"err {e.name}"
+
+/-- run a sequence of edits; failing operations leave the store untouched -/
+def runEdits (o : Protocol.Op) (n : Nat) : Nat → Tree → List String → Option (Tree × List String)
+  | i, store, acc =>
+    if h : i < n then
+      match o.str? s!"o{i}", (o.str? s!"k{i}") >>= parseKey? with
+      | some "get", some key => runEdits o n (i + 1) store (acc ++ [s!"r{i}={fmtExcept (cfgGet store key)}"])
+      | some "set", some key =>
+        match (o.str? s!"v{i}") >>= parseTree? with
+        | none => none
+        | some v =>
+          match cfgSet store key v with
+          | .ok s => runEdits o n (i + 1) s (acc ++ [s!"r{i}=ok"])
+          | .error e => runEdits o n (i + 1) store (acc ++ [s!"r{i}=e:{e.name}"])
+      | some "del", some key =>
+        match cfgDel store key with
+        | .ok s => runEdits o n (i + 1) s (acc ++ [s!"r{i}=ok"])
+        | .error e => runEdits o n (i + 1) store (acc ++ [s!"r{i}=e:{e.name}"])
+      | _, _ => none
+    else some (store, acc)
+termination_by i _ _ => n - i
+
+open Protocol in
+def handle (o : Op) : Option String :=
+  match o.name with
+  | "KEYT" => some <| Id.run do
+      let some key := (o.str? "key") >>= parseKey? | return "bad-op"
+      match keyTransform key with
+      | .error e => return s!"err {e.name}"
+      | .ok ps => return s!"ok n={ps.length} parts={fmtTree (.seq .list (TreeList.ofList (ps.map fun p => .scalar (.str p))))}"
+  | "CFGSEQ" => some <| Id.run do
+      let some store := (o.str? "store") >>= parseTree? | return "bad-op"
+      let some n := o.nat? "n" | return "bad-op"
+      match runEdits o n 0 store [] with
+      | none => return "bad-op"
+      | some (s, acc) => return s!"ok {" ".intercalate acc} store={fmtTree s}"
+  | "CFGYAML" => some <| Id.run do
+      let some store := (o.str? "store") >>= parseTree? | return "bad-op"
+      let some stype := (o.str? "stype") >>= parseTree? | return "bad-op"
+      let some route := o.str? "route" | return "bad-op"
+      let some legacy := o.nat? "legacy" | return "bad-op"
+      let c : Cfg := { siftType := stype, store := store }
+      let docs := match yamlSafeDocs c with
+        | .ok d => "v:" ++ fmtTree (.seq .list d)
+        | .error e => "e:" ++ e.name
+      let back : Except Err Cfg ← match route with
+        | "file" => pure (toYamlFile idealCodec c >>= fromYamlFile idealCodec)
+        | "text" =>
+          if legacy != 0 then pure (toYamlText idealCodec c >>= fromYamlStreamLegacy idealCodec)
+          else pure (toYamlText idealCodec c >>= fromYamlStream idealCodec)
+        | _ => return "bad-op"
+      let live := if legacy != 0 then storeAfterDumpLegacy c else storeAfterDump c
+      match back with
+      | .error e => return s!"err {e.name} docs={docs} live={fmtTree live}"
+      | .ok b => return s!"ok stype={fmtTree b.siftType} store={fmtTree b.store} docs={docs} live={fmtTree live}"
+  | "CFGLOAD" => some <| Id.run do
+      -- load a given document list through either loader (hand-written / foreign YAML)
+      let some docs := (o.str? "docs") >>= parseTree? | return "bad-op"
+      let some route := o.str? "route" | return "bad-op"
+      match route, docs with
+      | "file", .seq .list ds => return fmtCfg (fromYamlFile idealCodec (.many ds))
+      | "text", t => return fmtCfg (fromYamlStream idealCodec (.one t))
+      | _, _ => return "bad-op"
+  | "CFGFUNC" => some <| Id.run do
+      let some store := (o.str? "store") >>= parseTree? | return "bad-op"
+      let some stype := (o.str? "stype") >>= parseTree? | return "bad-op"
+      let some known := o.nat? "known" | return "bad-op"
+      match getFunc (fun _ => known != 0) { siftType := stype, store := store } with
+      | .error e => return s!"err {e.name}"
+      | .ok (f, kw) => return s!"ok fn={fmtTree (.scalar (.str f))} kw={fmtTree (.dict kw)}"
+  | "CFGDEFAULT" => some <| Id.run do
+      let some name := (o.str? "name") >>= parseKey? | return "bad-op"
+      let some (.dict gpe) := (o.str? "gpe") >>= parseTree? | return "bad-op"
+      let some (.dict ie) := (o.str? "ie") >>= parseTree? | return "bad-op"
+      let some (.dict gni) := (o.str? "gni") >>= parseTree? | return "bad-op"
+      let some var := (o.str? "var") >>= parseTree? | return "bad-op"
+      let variant : Key → Option Assoc := fun nm =>
+        if nm = name then (match var with | .dict a => some a | _ => none) else none
+      return fmtCfg (getConfig { gpe, ie, gni, variant } name)
+  | _ => none
 
 end Config
